@@ -127,6 +127,7 @@ def _direct_worker(payload):
             ln = {"a": "Auth", "c": conn, "p": abstract(p), "ok": ok, "_note": note, "_conc": p}
             if ok:
                 ln["who"] = who
+                ln["roles"] = set(tok.get("roles") or ())
             out.append([ln])
         return out
 
@@ -180,8 +181,8 @@ def _ws_worker(payload):
     out = []
 
     async def one(scn):
-        descs = [E("pa%d" % i, "A", 1, 100 + i, [["t", "a"]]) for i in range(12)] + [E("pb%d" % i, "B", 1, 200 + i, [["t", "a"]]) for i in range(12)] \
-            + [E("pc%d" % i, "C", 1, 400 + i, [["t", "a"]]) for i in range(12)] \
+        descs = [E("pa%d" % i, "A", 1, 100 + i, [["t", "a"]]) for i in range(30)] + [E("pb%d" % i, "B", 1, 200 + i, [["t", "a"]]) for i in range(30)] \
+            + [E("pc%d" % i, "C", 1, 400 + i, [["t", "a"]]) for i in range(30)] \
             + [E("pl", "B", 10002, 300, [["r", "x"]])]
         uni = Universe(descs)
         with C.Scratch() as d:
@@ -211,6 +212,12 @@ def _ws_worker(payload):
             for step in scn:
                 if step[0] == "auth":
                     sched += [auth_step(step[1], step[2]), ("idle",)]
+                elif step[0] == "setroles":
+                    async def assign(rec, key=step[1], rs=step[2]):
+                        await st.set_auth_roles(C.pubkey(key), rs)
+                        if backend == "lmdb":
+                            await C.lmdb_drain(st)
+                    sched += [("do", assign), ("idle",)]
                 else:
                     conn = int(step[1][1]) - 1
                     if step[2] == "save":
@@ -271,6 +278,12 @@ def _ws_worker(payload):
                 if gone and closed[step[1]][0] == k:
                     # the relay handled this frame by closing the connection (whatever it did to the session first is unobservable)
                     lines.append({"a": "Closed", "c": step[1], "_code": closed[step[1]][1]})
+                if step[0] == "setroles":
+                    for pu in pushes:
+                        lines.append({"a": "Push", "c": pu[1], "sid": pu[2]})
+                    lines.append({"a": "SetRoles", "key": step[1], "roles": set(step[2])})
+                    continue
+                o = done.get(step[1])
                 if step[0] == "auth":
                     for pu in pushes:
                         lines.append({"a": "Push", "c": pu[1], "sid": pu[2]})
@@ -323,6 +336,21 @@ def ws_scenarios(rnd, n):
             for c in CONNS:
                 scn.append(("probe", c, "save", rnd.choice(KEYS)))
                 scn.append(("probe", c, "query"))
+            if rnd.random() < 0.5:
+                # the operator changes a key's roles while sessions exist: they keep theirs, the key's next AUTH gets the new ones
+                scn.append(("setroles", rnd.choice(KEYS), rnd.choice(["", "r", "w", "rw"])))
+                for c in CONNS:
+                    scn.append(("probe", c, "save", rnd.choice(KEYS)))
+        # a valid AUTH of a key, a change of its roles, the same key again on the same and on the other connection
+        if rnd.random() < 0.6:
+            k = rnd.choice(KEYS)
+            scn.append(("auth", "c1", dict(VALID, signer=k, chals=["c1"])))
+            scn.append(("setroles", k, rnd.choice([x for x in ["", "r", "w"] if x != ROLES[k]])))
+            for conn in rnd.sample(CONNS, 2):
+                scn.append(("auth", conn, dict(VALID, signer=k, chals=[conn])))
+                for c in CONNS:
+                    scn.append(("probe", c, "save", rnd.choice(KEYS)))
+                    scn.append(("probe", c, "query"))
         out.append(scn)
     return out
 
@@ -451,7 +479,7 @@ def _challenge_worker(n):
     ok_shape = all(isinstance(c, str) and len(c) == 32 and all(x in "0123456789abcdef" for x in c) for c in chs)
     # TLC evaluates Auth.tla C15_ChallengesDistinct on the issued challenges
     text = ("---- MODULE ChalCheck ----\nEXTENDS Integers, Sequences, FiniteSets, TLC, Json\nCONSTANTS Conns, Keys, RolesOf, DefaultRoles, ActionRoles\n"
-            "VARIABLES token, last\nINSTANCE Auth\nChs == %s\nASSUME PrintT(\"@@\" \\o ToJson([ok |-> C15_ChallengesDistinct(Chs), n |-> Len(Chs)]))\n"
+            "VARIABLES token, roles, last\nINSTANCE Auth\nChs == %s\nASSUME PrintT(\"@@\" \\o ToJson([ok |-> C15_ChallengesDistinct(Chs), n |-> Len(Chs)]))\n"
             "SpecC == Init /\\ [][UNCHANGED vars]_vars\n====\n" % tlc.tla(chs))
     with tlc.Workdir(prefix="chal-") as wd:
         wd.write("ChalCheck.tla", text)
